@@ -6,6 +6,7 @@ lowercase vocabulary (no stop words, every word >= 2 chars) on which the shipped
 equal str.split(); `check_analysis()` asserts that equality once per process so the oracle
 does not silently inherit whoosh's analysis.
 """
+import contextlib
 import datetime
 import fnmatch
 import re
@@ -600,3 +601,39 @@ def gen_staged_history(rng):
         prev = c
     deletes = [d["id"] for d in rng.sample(docs, rng.choice([0, 0, 3, 20]))]
     return {"commits": commits, "deletes": deletes, "blocklimit": rng.choice([2, 4, 8, 16]), "storage": "ram"}
+
+
+# ----------------------------------------------------------------------
+# scale-down of a tunable: the buffer part size of the array union matcher
+# ----------------------------------------------------------------------
+
+@contextlib.contextmanager
+def array_partsize(n):
+    """whoosh.matching.combo.ArrayUnionMatcher buffers scores in parts of `partsize` document numbers (constructor
+    parameter, default 2048; an Or of >= 3 clauses uses this matcher on segments of <= 5000 documents). What it
+    returns must not depend on the part size. Inside this context the DEFAULT of that parameter is n, so that the
+    part-refill paths (reached in production only by segments beyond 2048 documents) run on small corpora too.
+    n=None: no change."""
+    if n is None:
+        yield
+        return
+    import inspect
+    from whoosh.matching import combo
+    f = combo.ArrayUnionMatcher.__init__
+    names = list(inspect.signature(f).parameters)
+    if names[-1] != "partsize" or not f.__defaults__:
+        raise RuntimeError("ArrayUnionMatcher.__init__ has no trailing partsize parameter any more: %r" % (names,))
+    old = f.__defaults__
+    f.__defaults__ = old[:-1] + (n,)
+    try:
+        yield
+    finally:
+        f.__defaults__ = old
+
+
+def partsize_for(idx, every=3):
+    """Deterministic choice per case index: None (production default) for most cases, a small part size for every
+    `every`-th."""
+    if idx % every != 1:
+        return None
+    return (2, 5, 16, 64, 3, 300)[(idx // every) % 6]
